@@ -402,7 +402,7 @@ func (w *c13worker) run(c *Case) *CaseResult {
 				}
 			}
 			for k, v := range f.refs {
-				if b.refs[k] != v {
+				if b.refs[k] != v && !strings.HasPrefix(b.refs[k], "STALE") { // stale references are reported on their own
 					co.Diff["ref "+k] = [2]string{b.refs[k], v}
 				}
 			}
